@@ -43,6 +43,7 @@ class Unit:
         self.vcpath = None
         self.outside = []      # raw Rust emitted after the verus! block (Display impls etc.)
         self.included = set()
+        self.optloops = set()
         self.callghost = []    # R19: ghost argument appended to calls of a stubbed callee (emission-point preconditions)
         self.mutself = set()   # R15b: by-value `self` / `mut self` receivers rebound to a mutable local
         self.sqlmap = {}       # (fnpath, ordinal) -> dict(stub, sha): R7
@@ -86,6 +87,8 @@ def parse_vc(path):
             u.specs[cur["fn"]] = dict(text=text, ret=cur.get("ret", "ret"), line=cur["line"], attrs=cur.get("attrs", ""))
         elif kind == "loop":
             u.loops[(cur["fn"], cur["n"])] = (text, cur["line"])
+            if cur.get("opt"):
+                u.optloops.add((cur["fn"], cur["n"]))
         elif kind == "hint":
             cur["text"] = text
             u.hints.append(cur)
@@ -177,7 +180,7 @@ def parse_vc(path):
             if "attrs" in parts:
                 cur["attrs"] = raw.split("attrs", 1)[1].strip()
         elif d == "loop":
-            cur = dict(kind="loop", fn=parts[1], n=int(parts[2]), line=ln)
+            cur = dict(kind="loop", fn=parts[1], n=int(parts[2]), line=ln, opt=("opt" in parts[3:]))
         elif d == "hint":
             m = re.match(r'@@\s*hint\s+(\S+)\s+(before|after)\s+"(.*)"(?:\s+#(\d+))?(?:\s+([+-]\d+))?\s*$', raw)
             if not m:
@@ -1185,6 +1188,11 @@ def process_fn(u, fnpath, text, log, origin, canary=None):
     want = sorted([n for (f, n) in u.loops if f == fnpath], reverse=True)
     for n in want:
         if n > len(lps):
+            if (fnpath, n) in u.optloops:
+                # `@@ loop F n opt`: the contract is attached only if the loop exists (used where an earlier, loop-free version of the
+                # code must still be judged by the function's contract instead of being reported as a lost anchor)
+                log.append(("opt-loop", fnpath, "loop #%d absent: its contract was not attached" % n))
+                continue
             raise Lost("loop #%d not found in %s (has %d loops)" % (n, fnpath, len(lps)))
         ltext, lline = u.loops[(fnpath, n)]
         kwoff, off, kw = lps[n - 1]
